@@ -23,6 +23,13 @@
 (* a failure), send a malformed message, send a wrong nonce / server       *)
 (* signature, or close the connection.                                     *)
 (*                                                                         *)
+(* Several connections: the connections of one Dialer / Transport are      *)
+(* authenticated with ONE sasl.Mechanism value, possibly at the same time  *)
+(* (OneMechanism).  A correct mechanism keeps no per-exchange state in     *)
+(* that value, so the connections interleave freely and each of them       *)
+(* satisfies the invariants on its own; Bug = "sharedConvo" (the value     *)
+(* holds the one conversation everybody steps) is rejected by them.        *)
+(*                                                                         *)
 (* Observable variables (the only ones the C18 invariants read, so that    *)
 (* the same invariants are evaluated on journals recorded from real dials):*)
 (*   cfg, sent, hv, authAt, failAt, closed, dialResult, fin                *)
@@ -31,7 +38,11 @@ EXTENDS Integers, Sequences, FiniteSets, TLC
 
 CONSTANTS Conns,     \* connections (independent of each other)
           Bug,       \* "none", or a defect injected into the client half (vacuity guards)
-          MaxUse     \* bound on ordinary requests after the dial (model checking only)
+          MaxUse,    \* bound on ordinary requests after the dial (model checking only)
+          OneMechanism, \* TRUE: the connections are dialled at once through ONE Dialer / Transport, i.e. they are
+                        \* configured with one sasl.Mechanism value (same mechanism, same credentials, same cluster);
+                        \* a correct client shares nothing else between them.  FALSE: unrelated connections.
+          OvFaults      \* OneMechanism: what the broker may do to each of the connections ("none", "close", ...)
 
 Mechs      == {"PLAIN", "SCRAM-SHA-256", "SCRAM-SHA-512"}
 CredKinds  == {"right", "wrongPassword", "unknownUser"}
@@ -39,7 +50,7 @@ FaultKinds == {"none", "unsupported", "error", "malformed", "badproof", "close"}
 PreAuthApis == {"ApiVersions", "SaslHandshake", "SaslAuthenticate", "RawSaslToken"}
 UseApis    == {"Metadata", "ListOffsets"}
 Bugs       == {"none", "skipAuthV0", "useBeforeAuth", "ignoreAuthErr", "noClose", "framedV0", "sendAfterFail",
-               "skipAuthAbsent", "negCodeOK"}
+               "skipAuthAbsent", "negCodeOK", "sharedConvo"}
 \* what the ApiVersions response says about SaslHandshake (key 17): no entry, 0..0, 0..1, 1..1
 HsAdvs     == {"absent", "v0", "v0v1", "v1"}
 \* the handshake version a correct client negotiates: the highest one both sides know; no entry means version 0
@@ -73,6 +84,22 @@ Configs ==
   { r \in [mech : Mechs, hsadv : HsAdvs, creds : CredKinds, fkind : FaultKinds, fstep : 0 .. 2, fcode : ErrCodes, attr : BOOLEAN] :
       FaultOK(r.mech, r.fkind, r.fstep) /\ CodeOK(r.hsadv, r.fkind, r.fstep, r.fcode) }
 
+\* Connections of one Dialer / Transport (OneMechanism): the mechanism, the credentials and the cluster's advertisement are
+\* common to all of them; what the broker does to one connection (OvFaults: nothing, closing it at some step, ...) is not.
+\* The scope is kept small here (the full space is covered connection by connection with OneMechanism = FALSE): the
+\* advertisements 0..0 and 1..1 (an absent entry negotiates like 0..0, 0..1 like 1..1), PLAIN and one of the two SCRAM
+\* mechanisms (nothing in this module tells them apart).
+SharedMechs == {"PLAIN", "SCRAM-SHA-256"}
+SharedConfigs(m, cr, a) ==
+  { r \in Configs : r.mech = m /\ r.creds = cr /\ r.hsadv = a /\ r.attr /\ r.fkind \in OvFaults }
+
+\* The state of the authentication conversation kept in the Mechanism VALUE by a defective mechanism (Bug = "sharedConvo":
+\* Start installs a fresh conversation in the value and hands out a pointer to it, so every connection that is being
+\* authenticated steps the conversation of whoever started last).  owner: the connection whose Start ran last (0: none),
+\* step: messages of the exchange that conversation has produced.  A correct mechanism returns a new conversation per
+\* Start: nothing is shared and conv never changes.
+NoConv == [owner |-> 0, step |-> 0]
+
 VARIABLES
   cfg,         \* cfg[c]: scenario of the connection (mechanism, advertised version, credentials, fault, attr)
   sent,        \* sent[c]: journal of everything the client wrote: <<[api, form]>>, form in {"req","framed","raw","write"}
@@ -88,17 +115,21 @@ VARIABLES
   c2s,         \* request the broker has not handled yet ("none" | "ApiVersions" | "SaslHandshake" | "auth" | "other")
   s2c,         \* reply the client has not consumed yet
   srvClosed,   \* the broker closed its end
-  uses         \* ordinary requests sent
+  uses,        \* ordinary requests sent
+  conv         \* conversation state inside the shared Mechanism value (only a defective mechanism has any: see NoConv)
 
 obs  == <<cfg, sent, hv, authAt, failAt, closed, dialResult, fin>>
-hid  == <<cst, round, c2s, s2c, srvClosed, uses>>
-vars == <<cfg, sent, hv, authAt, failAt, closed, dialResult, fin, cst, round, c2s, s2c, srvClosed, uses>>
+hid  == <<cst, round, c2s, s2c, srvClosed, uses, conv>>
+vars == <<cfg, sent, hv, authAt, failAt, closed, dialResult, fin, cst, round, c2s, s2c, srvClosed, uses, conv>>
 
 Entry(api, form) == [api |-> api, form |-> form]
 Journal(c, e) == sent' = [sent EXCEPT ![c] = Append(@, e)]
 
 Init ==
-  /\ cfg \in [Conns -> Configs]
+  /\ IF OneMechanism
+       THEN \E m \in SharedMechs, cr \in CredKinds, a \in {"v0", "v1"} : cfg \in [Conns -> SharedConfigs(m, cr, a)]
+       ELSE cfg \in [Conns -> Configs]
+  /\ conv = NoConv
   /\ sent = [c \in Conns |-> <<>>]
   /\ hv = [c \in Conns |-> -1]
   /\ authAt = [c \in Conns |-> 0]
@@ -142,7 +173,7 @@ SrvClose(c)  == srvClosed' = [srvClosed EXCEPT ![c] = TRUE]
 SrvVersions(c) ==
   /\ ~srvClosed[c] /\ c2s[c] = "ApiVersions"
   /\ Reply(c, "versions")
-  /\ UNCHANGED <<cfg, sent, hv, authAt, failAt, closed, dialResult, fin, cst, round, srvClosed, uses>>
+  /\ UNCHANGED <<cfg, sent, hv, authAt, failAt, closed, dialResult, fin, cst, round, srvClosed, uses, conv>>
 
 \* outcome of the handshake: "eof" (closed without an answer), "hsErr" (error code, then closed), "garbled", "hsOK"
 HandshakeOutcome(c) ==
@@ -158,7 +189,7 @@ SrvHandshake(c) ==
        /\ Reply(c, o)
        /\ IF o = "hsOK" THEN UNCHANGED failAt ELSE Fail(c)
        /\ IF o \in {"eof", "hsErr"} THEN SrvClose(c) ELSE UNCHANGED srvClosed
-  /\ UNCHANGED <<cfg, sent, hv, authAt, closed, dialResult, fin, cst, round, uses>>
+  /\ UNCHANGED <<cfg, sent, hv, authAt, closed, dialResult, fin, cst, round, uses, conv>>
 
 \* outcome of authenticate round i.  A failed step is answered with an error code when the bytes are framed
 \* (handshake v1) and by closing the connection when they are raw (handshake v0: no frame could carry a code).
@@ -176,19 +207,19 @@ SrvAuth(c) ==
        /\ IF o \in {"authCont", "authOK"} THEN UNCHANGED failAt ELSE Fail(c)
        /\ IF o \in {"eof", "authErr"} THEN SrvClose(c) ELSE UNCHANGED srvClosed
        /\ authAt' = [authAt EXCEPT ![c] = IF o = "authOK" THEN Len(sent[c]) ELSE @]
-  /\ UNCHANGED <<cfg, sent, hv, closed, dialResult, fin, cst, round, uses>>
+  /\ UNCHANGED <<cfg, sent, hv, closed, dialResult, fin, cst, round, uses, conv>>
 
 \* an unauthenticated client sent something else: the broker closes the connection
 SrvPreauthClose(c) ==
   /\ ~srvClosed[c] /\ c2s[c] = "other" /\ authAt[c] = 0
   /\ Reply(c, "eof") /\ Fail(c) /\ SrvClose(c)
-  /\ UNCHANGED <<cfg, sent, hv, authAt, closed, dialResult, fin, cst, round, uses>>
+  /\ UNCHANGED <<cfg, sent, hv, authAt, closed, dialResult, fin, cst, round, uses, conv>>
 
 \* requests of an authenticated client are served (their replies do not matter here)
 SrvServe(c) ==
   /\ ~srvClosed[c] /\ c2s[c] = "other" /\ authAt[c] > 0
   /\ c2s' = [c2s EXCEPT ![c] = "none"]
-  /\ UNCHANGED <<cfg, sent, hv, authAt, failAt, closed, dialResult, fin, cst, round, s2c, srvClosed, uses>>
+  /\ UNCHANGED <<cfg, sent, hv, authAt, failAt, closed, dialResult, fin, cst, round, s2c, srvClosed, uses, conv>>
 
 (***************************************************************************)
 (* Client                                                                  *)
@@ -199,7 +230,7 @@ Start(c) ==
   /\ cst[c] = "New" /\ ~closed[c]
   /\ Send(c, "ApiVersions", "req", "ApiVersions")
   /\ cst' = [cst EXCEPT ![c] = "VersionsAsked"]
-  /\ UNCHANGED <<cfg, hv, authAt, failAt, closed, dialResult, fin, round, srvClosed, uses>>
+  /\ UNCHANGED <<cfg, hv, authAt, failAt, closed, dialResult, fin, round, srvClosed, uses, conv>>
 
 \* the negotiated handshake version is the highest one both sides know; the handshake is sent whatever the
 \* ApiVersions response says about it (an absent entry negotiates version 0)
@@ -208,28 +239,39 @@ OnVersions(c) ==
   /\ hv' = [hv EXCEPT ![c] = AdvMax(cfg[c].hsadv)]
   /\ Send(c, "SaslHandshake", "req", "SaslHandshake")
   /\ cst' = [cst EXCEPT ![c] = "HandshakeSent"]
-  /\ UNCHANGED <<cfg, authAt, failAt, closed, dialResult, fin, round, srvClosed, uses>>
+  /\ UNCHANGED <<cfg, authAt, failAt, closed, dialResult, fin, round, srvClosed, uses, conv>>
 
 AuthForm(c) == IF hv[c] = 0 /\ Bug # "framedV0" THEN "raw" ELSE "framed"
 SendAuth(c) ==
   IF AuthForm(c) = "raw" THEN Send(c, "RawSaslToken", "raw", "auth") ELSE Send(c, "SaslAuthenticate", "framed", "auth")
 
+\* Mechanism.Start / StateMachine.Next.  A correct mechanism gives every connection a conversation of its own (it is
+\* the connection's round counter here).  The defective one (sharedConvo; SCRAM only, PLAIN keeps no state) installs the
+\* new conversation in the shared value at Start, and Next steps whatever conversation is there: it goes well only
+\* for the connection that started last and only if nobody else stepped it in between.
+KeepsConv(c)  == Bug = "sharedConvo" /\ cfg[c].mech # "PLAIN"
+ConvMine(c)   == KeepsConv(c) => (conv.owner = c /\ conv.step = round[c])
+StartConv(c)  == conv' = IF KeepsConv(c) THEN [owner |-> c, step |-> 1] ELSE conv
+StepConv(c)   == conv' = IF KeepsConv(c) THEN [conv EXCEPT !.step = @ + 1] ELSE conv
+
 OnHandshakeOK(c) ==
   /\ cst[c] = "HandshakeSent" /\ s2c[c] = "hsOK"
   /\ round' = [round EXCEPT ![c] = 1]
   /\ SendAuth(c)
+  /\ StartConv(c)
   /\ cst' = [cst EXCEPT ![c] = "AuthSent"]
   /\ UNCHANGED <<cfg, hv, authAt, failAt, closed, dialResult, fin, srvClosed, uses>>
 
 OnAuthCont(c) ==
-  /\ cst[c] = "AuthSent" /\ s2c[c] = "authCont"
+  /\ cst[c] = "AuthSent" /\ s2c[c] = "authCont" /\ ConvMine(c)
   /\ round' = [round EXCEPT ![c] = @ + 1]
   /\ SendAuth(c)
+  /\ StepConv(c)
   /\ UNCHANGED <<cfg, hv, authAt, failAt, closed, dialResult, fin, cst, srvClosed, uses>>
 
 \* what the client accepts as the successful end of the exchange
 Accepted(c) ==
-  /\ cst[c] = "AuthSent"
+  /\ cst[c] = "AuthSent" /\ ConvMine(c)
   /\ \/ s2c[c] = "authOK"
      \/ Bug = "ignoreAuthErr" /\ s2c[c] = "authErr" /\ round[c] = Rounds(cfg[c].mech)
      \* "error code > 0" instead of "error code # 0": UNKNOWN_SERVER_ERROR (-1) passes for success
@@ -246,18 +288,18 @@ FailClose(c) ==
   /\ SeesFailure(c) /\ Bug \notin {"noClose", "sendAfterFail"}
   /\ closed' = [closed EXCEPT ![c] = TRUE]
   /\ cst' = [cst EXCEPT ![c] = "Failed"]
-  /\ UNCHANGED <<cfg, sent, hv, authAt, failAt, dialResult, fin, round, c2s, s2c, srvClosed, uses>>
+  /\ UNCHANGED <<cfg, sent, hv, authAt, failAt, dialResult, fin, round, c2s, s2c, srvClosed, uses, conv>>
 
 DialReturnErr(c) ==
   /\ cst[c] = "Failed" /\ dialResult[c] = "pending" /\ cfg[c].attr
   /\ dialResult' = [dialResult EXCEPT ![c] = "error"]
-  /\ UNCHANGED <<cfg, sent, hv, authAt, failAt, closed, fin, cst, round, c2s, s2c, srvClosed, uses>>
+  /\ UNCHANGED <<cfg, sent, hv, authAt, failAt, closed, fin, cst, round, c2s, s2c, srvClosed, uses, conv>>
 
 DialReturnOK(c) ==
   /\ Accepted(c) /\ cfg[c].attr
   /\ dialResult' = [dialResult EXCEPT ![c] = "ok"]
   /\ cst' = [cst EXCEPT ![c] = "Authenticated"]
-  /\ UNCHANGED <<cfg, sent, hv, authAt, failAt, closed, fin, round, c2s, s2c, srvClosed, uses>>
+  /\ UNCHANGED <<cfg, sent, hv, authAt, failAt, closed, fin, round, c2s, s2c, srvClosed, uses, conv>>
 
 \* the library hands the connection to an internal user (LookupPartition, the Transport's metadata loop, a pooled
 \* request) which sends its request at once: the hand-over is visible only through that request (if the API call
@@ -268,25 +310,25 @@ InternalUse(c, api) ==
   /\ cst' = [cst EXCEPT ![c] = "Authenticated"]
   /\ Send(c, api, "req", "other")
   /\ uses' = [uses EXCEPT ![c] = @ + 1]
-  /\ UNCHANGED <<cfg, hv, authAt, failAt, closed, fin, round, srvClosed>>
+  /\ UNCHANGED <<cfg, hv, authAt, failAt, closed, fin, round, srvClosed, conv>>
 
 Use(c, api) ==
   /\ cst[c] = "Authenticated" /\ ~closed[c] /\ uses[c] < MaxUse
   /\ Send(c, api, "req", "other")
   /\ uses' = [uses EXCEPT ![c] = @ + 1]
-  /\ UNCHANGED <<cfg, hv, authAt, failAt, closed, dialResult, fin, cst, round, srvClosed>>
+  /\ UNCHANGED <<cfg, hv, authAt, failAt, closed, dialResult, fin, cst, round, srvClosed, conv>>
 
 FinalClose(c) ==
   /\ cst[c] = "Authenticated" /\ ~closed[c]
   /\ closed' = [closed EXCEPT ![c] = TRUE]
-  /\ UNCHANGED <<cfg, sent, hv, authAt, failAt, dialResult, fin, cst, round, c2s, s2c, srvClosed, uses>>
+  /\ UNCHANGED <<cfg, sent, hv, authAt, failAt, dialResult, fin, cst, round, c2s, s2c, srvClosed, uses, conv>>
 
 End(c) ==
   /\ ~fin[c]
   /\ \/ cst[c] = "Failed" /\ (dialResult[c] = "error" \/ ~cfg[c].attr)
      \/ cst[c] = "Authenticated" /\ closed[c]
   /\ fin' = [fin EXCEPT ![c] = TRUE]
-  /\ UNCHANGED <<cfg, sent, hv, authAt, failAt, closed, dialResult, cst, round, c2s, s2c, srvClosed, uses>>
+  /\ UNCHANGED <<cfg, sent, hv, authAt, failAt, closed, dialResult, cst, round, c2s, s2c, srvClosed, uses, conv>>
 
 (***************************************************************************)
 (* Defective clients (Bug # "none"): they exist so that the engine can     *)
@@ -301,7 +343,7 @@ BugSkipAuthV0(c) ==
   /\ dialResult' = [dialResult EXCEPT ![c] = "ok"]
   /\ cst' = [cst EXCEPT ![c] = "Authenticated"]
   /\ s2c' = [s2c EXCEPT ![c] = "none"]
-  /\ UNCHANGED <<cfg, sent, hv, authAt, failAt, closed, fin, round, c2s, srvClosed, uses>>
+  /\ UNCHANGED <<cfg, sent, hv, authAt, failAt, closed, fin, round, c2s, srvClosed, uses, conv>>
 
 \* an ordinary request is written before the handshake
 BugUseBeforeAuth(c) ==
@@ -309,13 +351,13 @@ BugUseBeforeAuth(c) ==
   /\ Journal(c, Entry("Metadata", "req"))
   /\ c2s' = [c2s EXCEPT ![c] = "other"]
   /\ uses' = [uses EXCEPT ![c] = 1]
-  /\ UNCHANGED <<cfg, hv, authAt, failAt, closed, dialResult, fin, cst, round, s2c, srvClosed>>
+  /\ UNCHANGED <<cfg, hv, authAt, failAt, closed, dialResult, fin, cst, round, s2c, srvClosed, conv>>
 
 \* the failure is noticed but the connection is left open
 BugNoClose(c) ==
   /\ Bug = "noClose" /\ SeesFailure(c)
   /\ cst' = [cst EXCEPT ![c] = "Failed"]
-  /\ UNCHANGED <<cfg, sent, hv, authAt, failAt, closed, dialResult, fin, round, c2s, s2c, srvClosed, uses>>
+  /\ UNCHANGED <<cfg, sent, hv, authAt, failAt, closed, dialResult, fin, round, c2s, s2c, srvClosed, uses, conv>>
 
 \* something is written after the failure, then the connection is closed
 BugSendAfterFail(c) ==
@@ -323,7 +365,7 @@ BugSendAfterFail(c) ==
   /\ Journal(c, Entry("Metadata", "write"))
   /\ closed' = [closed EXCEPT ![c] = TRUE]
   /\ cst' = [cst EXCEPT ![c] = "Failed"]
-  /\ UNCHANGED <<cfg, hv, authAt, failAt, dialResult, fin, round, c2s, s2c, srvClosed, uses>>
+  /\ UNCHANGED <<cfg, hv, authAt, failAt, dialResult, fin, round, c2s, s2c, srvClosed, uses, conv>>
 
 \* a handshake answered with a negative error code passes for accepted: the authentication bytes follow
 BugNegCodeHandshake(c) ==
@@ -331,9 +373,27 @@ BugNegCodeHandshake(c) ==
   /\ round' = [round EXCEPT ![c] = 1]
   /\ SendAuth(c)
   /\ cst' = [cst EXCEPT ![c] = "AuthSent"]
-  /\ UNCHANGED <<cfg, hv, authAt, failAt, closed, dialResult, fin, srvClosed, uses>>
+  /\ UNCHANGED <<cfg, hv, authAt, failAt, closed, dialResult, fin, srvClosed, uses, conv>>
+
+\* sharedConvo: the broker's answer is fed to a conversation that is not (or no longer) this connection's.
+\* Either that conversation refuses the message (wrong nonce, wrong kind of message, already completed): the mechanism
+\* reports an error and the client closes a connection the broker had no complaint about ...
+BugSharedFail(c) ==
+  /\ KeepsConv(c) /\ cst[c] = "AuthSent" /\ s2c[c] \in {"authCont", "authOK"} /\ ~ConvMine(c)
+  /\ closed' = [closed EXCEPT ![c] = TRUE]
+  /\ cst' = [cst EXCEPT ![c] = "Failed"]
+  /\ UNCHANGED <<cfg, sent, hv, authAt, failAt, dialResult, fin, round, c2s, s2c, srvClosed, uses, conv>>
+
+\* ... or another connection pushes the conversation to its end while this connection's Next is still computing on it
+\* (no synchronisation: both step the same value), and Next reports "completed" before the broker has accepted anything.
+BugSharedDone(c) ==
+  /\ KeepsConv(c) /\ cst[c] = "AuthSent" /\ s2c[c] = "authCont" /\ conv.owner # c
+  /\ dialResult' = [dialResult EXCEPT ![c] = "ok"]
+  /\ cst' = [cst EXCEPT ![c] = "Authenticated"]
+  /\ UNCHANGED <<cfg, sent, hv, authAt, failAt, closed, fin, round, c2s, s2c, srvClosed, uses, conv>>
 
 BugNext(c) == BugSkipAuthV0(c) \/ BugUseBeforeAuth(c) \/ BugNoClose(c) \/ BugSendAfterFail(c) \/ BugNegCodeHandshake(c)
+              \/ BugSharedFail(c) \/ BugSharedDone(c)
 
 ClientNext(c) ==
   \/ Start(c) \/ OnVersions(c) \/ OnHandshakeOK(c) \/ OnAuthCont(c)
@@ -361,6 +421,8 @@ TypeOK ==
        /\ round[c] \in 0 .. 2 /\ uses[c] \in 0 .. MaxUse + 1
        /\ c2s[c] \in {"none", "ApiVersions", "SaslHandshake", "auth", "other"}
        /\ s2c[c] \in {"none", "versions", "hsOK", "authCont", "authOK"} \cup FailReplies
+  /\ conv \in [owner : Conns \cup {0}, step : 0 .. 3]
+  /\ (Bug # "sharedConvo") => conv = NoConv
 
 \* index of the last journal entry written before the broker accepted the exchange (everything, if it never did)
 AuthCompletedIndex(c) == IF authAt[c] = 0 THEN Len(sent[c]) ELSE authAt[c]
